@@ -116,7 +116,10 @@ def transformers(ctx, R):
             if not outs:
                 continue
             PRE = buf if buf is not None else fixenc(s, var, lbytes0)
-            loops = [lp for lp in ev.loops if lp['fn'] == p]
+            # the batch loop: the one loop reached from this method (directly, in a closure or in a private helper) that changes a Writer
+            def changes_writer(lp):
+                return any(v[0] == 'adt' and v[1] == 'v2::builder::Writer' and lp['widened'].store.get(loc) != v for loc, v in lp['entry'].store.items())
+            loops = [lp for lp in ev.loops if changes_writer(lp)]
             R.inst('C10.I', 'write_payloads/%s/one-loop' % plabel, len(loops) == 1, expected='1 loop', found=str(len(loops)), entry=p)
             if len(loops) != 1:
                 continue
@@ -145,7 +148,7 @@ def transformers(ctx, R):
                 R.inst('C10.I', 'write_payloads/%s/iteration-appends-next-item' % plabel, equal(wb, exp), expected=exp, found=wb, entry=p)
                 R.inst('C10.I', 'write_payloads/%s/iteration-advances-iterator-once' % plabel, bstate.store[iloc] == ('call', 'iter_advance', (mu_i,)),
                        expected=('call', 'iter_advance', (mu_i,)), found=bstate.store[iloc], entry=p)
-                others = [loc for loc in W.store if loc not in (wloc, iloc) and loc in bstate.store and bstate.store[loc] != W.store[loc] and loc[0] == lp['fid'] and ctx.fx.fns[p]['locals'][loc[1]]['name']]
+                others = [loc for loc in W.store if loc not in (wloc, iloc) and loc in bstate.store and bstate.store[loc] != W.store[loc] and loc[0] == lp['fid'] and ctx.fx.fns[lp['fn']]['locals'][loc[1]]['name']]
                 R.inst('C10.I', 'write_payloads/%s/iteration-touches-nothing-else' % plabel, not others, expected='no other named local changed', found=str(others), entry=p)
             R.inst('C10.I', 'write_payloads/%s/has-iteration' % plabel, len(lp['backs']) >= 1, expected='>= 1 back edge state', found=str(len(lp['backs'])), entry=p)
             # exits: Ok -> header = Some(accumulated bytes), fields unchanged
